@@ -215,3 +215,210 @@ class SyntaxGen:
         return p.Subscript(p.Variable("v"), p.Slice(tuple(parts)))
 
 # }}}
+
+
+# {{{ lexer model streams (C06/C07): strings on the wire, real lexer answers, generators
+
+def codes(s: str) -> str:
+    """a string as a list of code points (the wire protocol is line based; the lexer must see
+    newlines, tabs, quotes and non-ASCII text)"""
+    return "(" + " ".join(str(ord(c)) for c in s) + ")"
+
+
+def real_lex_raw(s: str) -> str:
+    """canonical answer of the REAL `pytools.lex.lex(Parser.lex_table, s)`: every item (tag, text),
+    whitespace included, or the index of the InvalidTokenError"""
+    import pytools.lex
+    from pymbolic.parser import Parser
+    try:
+        lexed = pytools.lex.lex(Parser.lex_table, s)
+    except pytools.lex.InvalidTokenError as e:
+        return f"(err InvalidTokenError {e.index})"
+    return "(ok (" + " ".join(f"({t} {codes(x)})" for t, x, _i in lexed) + "))"
+
+
+def real_lex_tokens(s: str) -> str:
+    """canonical answer for the token list the parser starts from: what `Parser.__call__` /
+    `parse_terminal` make of the lexed items (whitespace dropped, `int(text)`, `parse_float(text)`)"""
+    import pytools.lex
+    from pymbolic.parser import Parser, _whitespace
+    try:
+        lexed = pytools.lex.lex(Parser.lex_table, s)
+    except pytools.lex.InvalidTokenError as e:
+        return f"(err InvalidTokenError {e.index})"
+    out = []
+    for tag, text, _idx in lexed:
+        if tag is _whitespace:
+            continue
+        if tag == "int":
+            try:
+                out.append(f"(int {int(text)})")
+            except ValueError:
+                return "(noclaim int-too-long)"
+        elif tag == "float":
+            try:
+                v = Parser().parse_float(text)
+            except ValueError:
+                return "(err FloatValueError)"
+            if v != v or v in (float("inf"), float("-inf")):
+                return "(noclaim nonfinite)"
+            n, d = v.as_integer_ratio()
+            out.append(f"(flt {q(repr(v))} {n} {d})")
+        elif tag == "imaginary":
+            return "(err AssertionError)"
+        elif tag == "identifier":
+            out.append(f"(id {q(text)})")
+        elif tag == "True":
+            out.append("true")
+        elif tag == "False":
+            out.append("false")
+        else:
+            out.append(f"(sym {q(text)})")
+    return "(ok (" + " ".join(out) + "))"
+
+
+LEX_NAMES = ["x", "y", "foo", "a1", "_t", "order", "android", "nothing", "iffy", "elsewhere", "T",
+             "Tru", "Fals", "$a", "@b", "x_1", "e", "E5", "d", "j", "e5", "and_", "or2", "If",
+             "true", "NaN", "inf", "min", "i", "n", "ifx", "notx", "else_", "__", "$", "@"]
+
+
+def rand_float(rng):
+    import struct
+    k = rng.random()
+    if k < 0.35:
+        return rng.choice([0.5, 1.5, 2.0, 1e20, 1e-5, 0.25, 3.75, 1e16, 1e15, 1e22, 0.1, 1e-7,
+                           123456.789, 5e-324, 1.7976931348623157e308, 2.5e-10, 1e100, 0.0001,
+                           0.00001, 4.35, 9007199254740993.0, 1.5e300, 2.2250738585072014e-308])
+    if k < 0.7:
+        while True:
+            v = struct.unpack("d", struct.pack("Q", rng.getrandbits(63)))[0]
+            if v == v and v != float("inf"):
+                return v
+    return rng.random() * 10 ** rng.randint(-12, 25)
+
+
+class LexGen(SyntaxGen):
+    """printable trees with names over the whole identifier alphabet, arbitrary finite float
+    constants (every `repr` spelling) and numeric literals in aggregate position"""
+
+    def leaf(self):
+        r = self.rng
+        k = r.random()
+        if k < 0.45:
+            return p.Variable(r.choice(LEX_NAMES))
+        if k < 0.65:
+            return r.choice([r.randint(-9, 9), r.randint(-10 ** 6, 10 ** 6), 10 ** r.randint(1, 40)])
+        if k < 0.9:
+            v = rand_float(r)
+            return -v if r.random() < 0.25 else v
+        return r.choice([True, False])
+
+    def gen(self, depth):
+        r = self.rng
+        if depth > 0 and r.random() < 0.12:
+            g = self.gen(depth - 1)
+            k = r.random()
+            if k < 0.4:
+                return p.Lookup(g, r.choice(LEX_NAMES))
+            if k < 0.6:
+                return p.Call(g if isinstance(g, p.Expression) else p.Variable("f"), (self.gen(depth - 1),))
+            if k < 0.8:
+                return p.CallWithKwargs(p.Variable("f"), (), {r.choice(LEX_NAMES): g})
+            return p.Subscript(g if isinstance(g, p.Expression) else p.Variable("v"), self.gen(depth - 1))
+        return super().gen(depth)
+
+
+def tidy(e):
+    """move a generated tree towards the proved fragment: one-operand n-ary nodes are replaced by
+    the operand, bitwise/logical nodes keep two operands, short slices get a second part, slices do
+    not end in an omitted part"""
+    import dataclasses
+    if isinstance(e, tuple):
+        return tuple(tidy(c) for c in e)
+    if not isinstance(e, p.Expression) or not dataclasses.is_dataclass(e):
+        return e
+    if isinstance(e, (p.Sum, p.Product)):
+        cs = tuple(tidy(c) for c in e.children)
+        return cs[0] if len(cs) == 1 else type(e)(cs)
+    if isinstance(e, (p.BitwiseOr, p.BitwiseXor, p.BitwiseAnd, p.LogicalOr, p.LogicalAnd)):
+        cs = tuple(tidy(c) for c in e.children)
+        return cs[0] if len(cs) == 1 else type(e)(cs[:2])
+    if isinstance(e, p.Slice):
+        cs = [None if c is None else tidy(c) for c in e.children]
+        if len(cs) < 2:
+            cs = cs + [p.Variable("n")]
+        if cs[-1] is None:
+            cs[-1] = p.Variable("n")
+        return p.Slice(tuple(cs))
+    kw = {}
+    for f in dataclasses.fields(e):
+        v = getattr(e, f.name)
+        if isinstance(v, tuple) and f.name in ("children", "parameters", "values"):
+            kw[f.name] = tuple(None if c is None else tidy(c) for c in v)
+        elif hasattr(v, "items"):
+            kw[f.name] = {k: tidy(c) for k, c in v.items()}
+        elif isinstance(v, (p.Expression, tuple)):
+            kw[f.name] = tidy(v)
+        else:
+            kw[f.name] = v
+    return type(e)(**kw)
+
+
+LEX_ALPHABET = (list("0123456789") * 3 + list("eEdDjxa_@$T") + list(".+-*/<>=!&|~^()[],: \n\t%") * 2
+                + ["and", "or", "not", "if", "else", "True", "False", "é", "#", "\r", "1e5", "1.5", "2.",
+                   "**", "//", "<<", ">>", "<=", ">=", "==", "!=", "Ω", "٣", "x", " ", "\x0b", "'", '"',
+                   "\\", "1e+5", "e-3", ".5", "ª", "０"])
+
+
+def lex_strings(rng, tier):
+    """strings for the lexer streams: printed expressions, perturbed printed strings, random strings
+    over the token alphabet, numeric literals in every spelling, malformed and non-ASCII text,
+    and all short strings over a small alphabet"""
+    import itertools as it
+    nq = tier == "quick"
+    g = LexGen(rng)
+    for _ in range(700 if nq else 8000):
+        e = g.gen(rng.randint(1, 6))
+        try:
+            s = str(e) if isinstance(e, p.Expression) else None
+        except Exception:
+            s = None
+        if s is None:
+            continue
+        yield s, "printed"
+        k = rng.random()
+        if k < 0.5 and len(s) > 2:
+            i = rng.randrange(len(s))
+            yield s[:i] + s[i + 1:], "perturbed"
+        elif k < 0.8:
+            i = rng.randrange(len(s) + 1)
+            yield s[:i] + rng.choice(LEX_ALPHABET) + s[i:], "perturbed"
+        else:
+            yield s.replace(" ", ""), "perturbed"
+    for _ in range(1800 if nq else 40000):
+        yield "".join(rng.choice(LEX_ALPHABET) for _ in range(rng.randint(0, 12))), "random"
+    for _ in range(600 if nq else 12000):
+        # numeric literals: digits, dot, exponent, tags
+        parts = [rng.choice(["", "0", "1", "12", "007", str(rng.randint(0, 10 ** rng.randint(0, 20)))]),
+                 rng.choice(["", ".", ".", "..", "." + str(rng.randint(0, 10 ** rng.randint(0, 20)))]),
+                 rng.choice(["", "", "e", "E", "d", "D", "e+", "e-", "E+", "d-"]) +
+                 rng.choice(["", "", "5", "05", str(rng.randint(0, 400)), str(rng.randint(0, 20))]),
+                 rng.choice(["", "", "", "j", "x", "L", "f0", "_", " ", "if", ".u", ".5", "e5"])]
+        yield "".join(parts), "numeric"
+    for v in ([repr(rand_float(rng)) for _ in range(400 if nq else 8000)]):
+        yield v, "repr"
+    for s in ["", " ", "\n", "\t \n", "a  b", "a\rb", "1if x", "1 if x", "x.5", "x .5", "1..2", "1.u", "2.5.u",
+              "Truex", "True.x", "and", "andy", "and$x", "and@", "not(x)", "notx", "if", "else1", "1e5é", "andé",
+              "1j", "1.5j", "1e5j", ".5j", "1e5_", "1e5x_", "1.5e3x", "1.5e+x", "1e", "1e+", "1.e", "12ab34",
+              "!x", "!=x", "=!", "<<=", ">>>", "<>", "**=", "***", "////", "a.b.c", "...", "$a@1", "@", "$",
+              "1e400", "1e-400", "0." + "0" * 400 + "1", "9" * 30, "1" * 400 + ".5", "1e0000000000000000005",
+              "0e999999999999", "5e-324", "2.4703282292062327e-324", "2.4703282292062328e-324",
+              "1.7976931348623158e308", "1.7976931348623159e308", "x" * 300, "é", "aé", "1٣",
+              "a b", "１２", "0x10", "1_000", "1__", "0b1", "1e5.5", "1.5.5", "1.5e5e5", "2d3D4"]:
+        yield s, "edge"
+    alpha = ["1", ".", "e", "+", "a", " ", "*", "=", "<", "j"]
+    for n in range(1, 4 if nq else 5):
+        for t in it.product(alpha, repeat=n):
+            yield "".join(t), "exhaustive"
+
+# }}}
